@@ -307,6 +307,10 @@ def run(ck, repo: Repo, tier: str):
                     raise AnalysisError(f"{q}: the target updates are distributed differently over {[x.rsplit('.', 1)[1] for x in group[0]]} than documented (unrecognised form)")
             if len(calls) < n_expected and (_foreign_helper_sites(repo, res) or any(cq_.startswith(q) or True for _c, cq_ in getattr(repo, "expand_failed", []) if _c == q)):
                 raise AnalysisError(f"{q}: {len(calls)} of {n_expected} documented target updates are visible; others go through code that cannot be attributed (unrecognised form)")
+            if len(calls) < n_expected:
+                raw = [c_ for c_ in ast.walk(fn) if isinstance(c_, ast.Call) and isinstance(c_.func, (ast.Name, ast.Attribute)) and repo.resolve_expr(mi, c_.func) == "flax.nnx.update"]
+                if len(raw) > len(calls):
+                    raise AnalysisError(f"{q}: {len(calls)} of {n_expected} documented target updates are visible as helper calls, but {len(raw)} raw nnx.update calls are present (written out or expanded updates: not attributed)")
         ck.ob("R4-cadence", q, "helper-count", len(calls) == n_expected, f"{len(calls)} target-update call(s), documented {n_expected}",
               "" if len(calls) == n_expected else "a documented target update is missing or an undocumented one was added", loc(mi, fn))
         if len(calls) != n_expected:
